@@ -347,8 +347,16 @@ Definition reregister (stk : list Z) (oldptr newptr newsize : Z) (g : gc) : gc :
 Definition gc_init : gc :=
   mkGC [] [] 0 0 0 (two64 - 1) [] false true DEFAULT_PAUSE 0 [] [] None.
 
+(* for i=1,DESTROY_SWEEPS do GC_sweep(self); if #self.items == 0 then break end end *)
+Fixpoint destroy_loop (n : nat) (g : gc) : gc :=
+  match n with
+  | O => g
+  | S n' => let g' := sweep g in
+            match items g' with [] => g' | _ :: _ => destroy_loop n' g' end
+  end.
+
 Definition destroy (g : gc) : gc :=
-  let g := set_collecting false (sweep (set_collecting true g)) in
+  let g := set_collecting false (destroy_loop DESTROY_SWEEPS (set_collecting true g)) in
   (* items:destroy() ... $self = {} : whatever is still registered is dropped unseen *)
   set_items [] (set_roots [] g).
 
